@@ -41,6 +41,11 @@ class ReplayDiverged(Exception):
     pass
 
 
+class SimSpin(BaseException):
+    """Raised asynchronously (by the wall-clock watchdog) inside a task that keeps the baton
+    without ever reaching a yield point: a pure CPU loop in the code under test."""
+
+
 class Violation(Exception):
     """A property violation found by an oracle.
 
@@ -158,6 +163,8 @@ class Sim:
         self.cleanup = []
         self._digest = hashlib.sha256()
         self.nevents = 0
+        self.spin_limit = 15.0      # wall seconds without any yield point => CPU spin (0 disables)
+        self.spin_info = None
 
     # ------------------------------------------------------------ choices
     def choose(self, n, tag=None, p0=None):
@@ -448,15 +455,46 @@ class Sim:
         self.current = d
         CURRENT = self
         tracer = self._make_tracer() if self.trace_files else None
+        self._wd_stop = False
+        self.spin_info = None
+        wd = None
+        if self.spin_limit:
+            wd = _rt.Thread(target=self._watchdog, daemon=True)
+            _real_thread_start(wd)
         try:
             if tracer:
                 sys.settrace(tracer)
             return main_fn(self)
         finally:
+            self._wd_stop = True
             if tracer:
                 sys.settrace(None)
             self.shutdown()
             CURRENT = None
+
+    def _watchdog(self):
+        """Real (non-simulated) thread: if no yield point is reached for spin_limit wall seconds,
+        the baton holder is looping without ever yielding; interrupt it."""
+        import ctypes
+        import time as _t
+        last = -1
+        since = _t.monotonic()
+        fired = False
+        while not self._wd_stop and not self.aborting:
+            _t.sleep(0.25)
+            if self.steps != last:
+                last = self.steps
+                since = _t.monotonic()
+                continue
+            if not fired and _t.monotonic() - since > self.spin_limit:
+                cur = self.current
+                if cur is not None and cur.ident is not None:
+                    fired = True
+                    try:
+                        self.spin_info = (cur.name, stack_of(cur, 40))
+                    except Exception:
+                        self.spin_info = (cur.name, [])
+                    ctypes.pythonapi.PyThreadState_SetAsyncExc(ctypes.c_ulong(cur.ident), ctypes.py_object(SimSpin))
 
     def shutdown(self):
         self.aborting = True
@@ -573,6 +611,13 @@ def _patched_start(self):
             orig_run()
         except SimAbort:
             pass
+        except SimSpin:
+            if not sim.aborting and sim.failure is None:
+                who, frames = sim.spin_info or (task.name, [])
+                sim.failure = SimBudget("cpu spin without yield point in task %s: %s" % (who, " < ".join(frames[:6])))
+                d = sim.driver
+                if d is not None and d.state == BLOCKED:
+                    sim._unblock(d, False)
         except BaseException as e:  # recorded; scenario decides
             if not sim.aborting:
                 task.exc = e
